@@ -35,7 +35,21 @@ func str(fset *token.FileSet, n ast.Node) string {
 	return strings.Join(strings.Fields(b.String()), " ")
 }
 
+type sortCall struct {
+	File string `json:"file"`
+	Func string `json:"func"`
+	Expr string `json:"expr"`
+	Cmp  string `json:"cmp"`
+}
+
 func main() {
+	sortsMode := false
+	if len(os.Args) > 1 && os.Args[1] == "-sorts" {
+		// second table: every sort call of the packages (what is sorted, in which function, by what order) — lists that arrive in
+		// an arbitrary order from the controller (endpoints collected in a map) are made canonical by these calls
+		sortsMode = true
+		os.Args = append(os.Args[:1], os.Args[2:]...)
+	}
 	dir := os.Args[1]
 	cfg := &packages.Config{Mode: packages.NeedName | packages.NeedFiles | packages.NeedSyntax | packages.NeedTypes | packages.NeedTypesInfo | packages.NeedImports | packages.NeedDeps, Dir: dir}
 	pkgs, err := packages.Load(cfg, os.Args[2:]...)
@@ -44,6 +58,7 @@ func main() {
 		os.Exit(2)
 	}
 	var sites []site
+	var sorts []sortCall
 	for _, p := range pkgs {
 		if len(p.Errors) > 0 {
 			fmt.Fprintln(os.Stderr, p.Errors)
@@ -67,6 +82,7 @@ func main() {
 						name := str(p.Fset, c.Fun)
 						if (strings.HasPrefix(name, "sort.") || strings.HasPrefix(name, "slices.Sort")) && len(c.Args) > 0 {
 							sorted[str(p.Fset, c.Args[0])] = comparator(p.Fset, name, c)
+							sorts = append(sorts, sortCall{rel, fd.Name.Name, str(p.Fset, c.Args[0]), comparator(p.Fset, name, c)})
 						}
 					}
 					return true
@@ -106,6 +122,20 @@ func main() {
 	})
 	enc := json.NewEncoder(os.Stdout)
 	enc.SetIndent("", " ")
+	if sortsMode {
+		sort.Slice(sorts, func(i, j int) bool {
+			a, b := sorts[i], sorts[j]
+			if a.File != b.File {
+				return a.File < b.File
+			}
+			if a.Func != b.Func {
+				return a.Func < b.Func
+			}
+			return a.Expr < b.Expr
+		})
+		_ = enc.Encode(sorts)
+		return
+	}
 	_ = enc.Encode(sites)
 }
 
